@@ -38,6 +38,10 @@ P = {
   "Every graph built from a world inside the deviation bound is walked from every root set of <= 2 world specifiers under all 36 option sets, plain and with skip_previous_dependencies() after each single entry / every entry; yielded sets (no duplicates) and keyed error listings are compared with a set-based reference fixpoint.",
   "Reference fixpoint written over the public API (serialised slot table, redirects, imports, dependencies). Generic worlds have no fast-check modules.",
   "DESIGN.md §4 C15", TECH + "; deviation-bounded worlds x all walk options x root sets x skip sets against a reference fixpoint"),
+ "C19": (True,
+  "Every history of up to 3 (quick) / 4 (thorough) operations over {build(r0), build(r1), build(r0,r1), edit+reload(m)} is replayed on a live graph for every world (with one alternative import list / repaired variant per module) inside the deviation bound; after each operation the live graph is compared with a from-scratch build of the roots so far on the current sources, rebuilds of known roots must be no-ops, and unreachable leftovers must be untouched.",
+  "Differential oracle. Error entries compared without referrer. Specifiers that some import loads as an asset are not reloaded (a reload is an attribute-less load).",
+  "DESIGN.md §4 C19", TECH + "; exhaustive operation histories up to a depth x deviation-bounded worlds, differential oracle against from-scratch builds"),
 }
 
 ALL = ["C%02d" % i for i in range(1, 21)]
